@@ -103,6 +103,7 @@ func (d *dateObject) Set(epoch float64) {
 		d.value = NaNValue()
 	} else {
 		d.value = int64Value(d.epoch)
+		d.isNaN = false
 	}
 }
 
